@@ -116,7 +116,7 @@ SCENARIO_TIMEOUT = 400
 
 
 def scenarios(tier, seed):
-    n = 2 if tier == "quick" else 8
+    n = 4 if tier == "quick" else 8
     return [{"kind": "whip", "seed": seed * 1000 + 600 + i, "ndims": 3, "nf": [3, 2, 4][i % 3], "nlevels": [2, 3, 1][i % 3],
              "nfiles": [3, 2, 4][i % 3], "layout": ["shuffled", "roundrobin"][i % 2], "box_sizes": [8, 16] if i % 2 else None,
              "n0": [16, 8, 24] if i % 2 == 0 else [16, 16, 16], "ncombos": 3 if tier == "quick" else 8,
